@@ -11,6 +11,8 @@
  *   - the bucket holds at most `burst` tokens afterwards;
  *   - an earlier refill timer is deregistered (by its key) before the new one is registered;
  *   - rate 0 removes the limit: tokens = burst = UINT64_MAX, no timer registered, key forgotten.
+ * Two jobs from this file: -DVF_ARITH keeps only the two multiplication facts about the period (no SAT back end, z3 or
+ * plain cvc5 decides them in 60 s; cvc5 --solve-bv-as-int=sum does in ~25 s per query), the other job has everything else.
  * Stubs: m_ctx(), fetch_ms, the two registry entry points (their token cost and the registry are c18_reconf.c's subject). */
 #include "l1.h"
 #include <time.h>
@@ -43,6 +45,9 @@ int m_mod_src_deregister_tmr(m_mod_t *mod, const m_src_tmr_t *its) {
 }
 
 int vf_main(void) {
+    /* rate is drawn first: --slice-formula drops the inputs the arithmetic checks do not depend on from the trace, the
+     * native replay feeds values back in call order */
+    uint32_t rate = nondet_uint();
     vf_the_ctx = vf_l1_ctx();
     m_mod_t *mod = vf_l1_mod(vf_the_ctx, NULL);
     VF_PICK(sb, 4);                                  /* IDLE, RUNNING, PAUSED, STOPPED */
@@ -61,10 +66,23 @@ int vf_main(void) {
     }
     reg_ret = nondet_bool() ? 0 : -EEXIST;
 
-    uint32_t rate = nondet_uint();
     uint64_t burst = nondet_u64();
     int r = m_mod_set_tokenbucket(mod, rate, burst);
 
+#ifdef VF_ARITH
+    /* the division kernel only (decided by cvc5 with the integer encoding; the structural half runs on SAT) */
+    if (rate >= 1 && rate <= 1000000000u) {
+        uint64_t period = reg_its.ns;
+        VF_CHECK(n_reg == 1, "exactly one refill timer is registered");
+        VF_CHECK(period >= 1, "the refill period is not zero");
+        VF_CHECK(period * (uint64_t)rate >= 1000000000ull, "period_ns * rate >= 10^9: at most `rate` refills per second");
+#ifndef VF_NO_TIGHT
+        VF_CHECK((period - 1) * (uint64_t)rate < 1000000000ull, "the period is the shortest whole number of ns with at most `rate` refills per second");
+#endif
+        VF_WITNESS("configured");
+    }
+    return 0;
+#else
     if (rate > 1000000000u) {
         VF_CHECK(r < 0, "a rate above 10^9 per second is rejected");
         VF_CHECK(n_reg == 0 && n_dereg == 0 && mod->tb.burst == old_burst && mod->tb.tokens == old_tokens
@@ -85,10 +103,7 @@ int vf_main(void) {
     VF_CHECK(n_reg == 1, "exactly one refill timer is registered");
     VF_CHECK(r == reg_ret, "the result of the registration is reported");
     uint64_t period = reg_its.ns;
-    VF_CHECK(period >= 1, "the refill period is not zero");
-    VF_CHECK(period <= 1000000000u, "the refill period is at most one second");
-    VF_CHECK(period * (uint64_t)rate >= 1000000000ull, "period_ns * rate >= 10^9: at most `rate` refills per second");
-    VF_CHECK((period - 1) * (uint64_t)rate < 1000000000ull, "the period is the shortest whole number of ns with at most `rate` refills per second");
+    VF_CHECK(period >= 1 && period <= 1000000000u, "the refill period is between 1 ns and one second");
     VF_CHECK((reg_flags & M_SRC_INTERNAL) != 0, "the refill timer is an internal source");
     VF_CHECK(reg_up == (const void *)&mod->tb, "the refill timer carries &mod->tb (recognised by push_evt)");
     VF_CHECK(mod->tb.timer.ns == period, "the key of the registered timer is remembered for the next reconfiguration");
@@ -96,4 +111,5 @@ int vf_main(void) {
     VF_CHECK(mod->tb.tokens <= burst && tokens_at_reg <= burst, "never more than `burst` tokens after configuration");
     VF_WITNESS("configured");
     return 0;
+#endif
 }
